@@ -4,6 +4,14 @@ manifest stays valid while checks are added)."""
 import json
 
 claimed = {
+ "C16": dict(level="exploration", engine="I",
+   text="every string over the property's 20-symbol alphabet up to length 5 (quick) / 6 (thorough) after each of 7 prefixes, plus a long family, is parsed in isolated child processes with a capped stack and a hang watchdog; a crashing batch is bisected to one string. Exhaustive below the length bound, which is where the recursion defect lives (shortest witness has 3 symbols)",
+   note="stack cap 16 MB stands for 'unbounded'; 8 s per string stands for 'time bounded by input length'; random / grammar-mutated tails not attempted",
+   technique="bounded exhaustive enumeration of all strings over a finite alphabet, process-isolated execution", ref="DESIGN.md section 2 C16"),
+ "C17": dict(level="exploration", engine="I",
+   text="grammar product of URI components with an oracle computed from the components; accepted-URI invariants and String/ParseURI round trip on every string of the C16 space; DialURI on an injected recording network for all 5x3 scheme/transport values (network, address, first record on the wire is a TLS/DTLS ClientHello with SNI for secure schemes, ErrUnsupportedURI and zero dials otherwise)",
+   note="one known finding (bracketed host starting with '/' does not round-trip) is listed in KNOWN_FINDINGS.txt; DTLS/TLS detection by record header bytes",
+   technique="bounded exhaustive enumeration of inputs and configurations against a component-level reference", ref="DESIGN.md section 2 C17"),
  "C01": dict(level="exploration", engine="I",
    text="bounded-exhaustive enumeration of length structures (attribute-length sequences x declared length x buffer length up to a body bound), tiny-alphabet bodies and the 65535-byte family, through all 7 decoding entry points x buffer capacities x fresh/used Message x release/debug; every call is checked for panic, hang, allocation bound and, on success, pointer-exact value views. Exhaustive over the length/offset logic that every decoder branch depends on; byte content is from fixed fillers",
    note="bounds: body <= 20/28 bytes for the full product (quick/thorough); allocation clause uses 64n+4096; random / coverage-guided tails of the quantifier are not attempted",
